@@ -1,68 +1,18 @@
 /-
-Line-protocol driver for C16 (runs the NaN-policy definitions of GPVerif/Model/ExactGP.lean at ℚ).
-
-Request:
-  nan n s  J[(n+s)×(n+s)] mj[(n+s)×1] S[n×n] y[n×1] obs[n×1 of 0/1] c[1×1] c'[1×1] cfg
-    (entries of y at missing positions are arbitrary placeholders; they are never read under mask and are
-     overwritten by the fill value c under fill)
-  -> ok cnt | meanMask | covarMask | meanFill | covarFill | covarIgnoringPolicy | quad | det
-        | gMeanMask | gCovarMask | gMeanFill | gCovarFill
-     the g* from the GENERATED `Gen.ExactAlgebra.exact_prediction` (translator G7) under policy mask / fill and the
-     branch configuration cfg (bit mask: 1 fast, 2 skip, 4 detach, 8 eager, 16 ttDim2), fill value c; `nogen` when
-     the generated function returns none;
-     where quad = r_oᵀ (A_oo)⁻¹ r_o and det = det(sym A_oo) (certified LDLᵀ; `nodet` when the certificate fails)
-     (or `singular`)
+Line-protocol driver for C16 (runs the NaN-policy definitions of GPVerif/Model/ExactGP.lean at ℚ and the GENERATED
+`Gen.ExactAlgebra.exact_prediction` of translator G7 next to them).  The protocol (requests `nan`, `union`) is in
+GPVerif/Model/NanDriver.lean; `drivers/C16spec.lean` is the same driver without the generated code.
 -/
-import GPVerif.Model.ExactGP
+import GPVerif.Model.NanDriver
 import GPVerif.Gen.ExactAlgebra
-import GPVerif.Model.LDL
-import GPVerif.Model.Proto
-open Proto ExactGP
+open ExactGP
 
-def takeD (n m : Nat) (ts : List String) : Option (DMat n m Rat × List String) := do
-  let (r, c, rows, rest) ← takeMat? ts
-  if r = n ∧ c = m then some (DMat.ofRaw rows, rest) else none
-
-def showD {n m : Nat} (A : DMat n m Rat) : String := showRows A.toRows
-
-def detStr {k : Nat} (A : DMat k k Rat) : String :=
-  let Asym : DMat k k Rat := (A.add A.transpose).smul (1 / 2)
-  match DMat.ldl? Asym with
-  | some (_, d) => showRat ((List.finRange k).foldl (fun acc i => acc * d i) 1)
-  | none => "nodet"
-
+/-- cfg bit mask: 1 fast, 2 skip, 4 detach, 8 eager, 16 ttDim2, 32 ttIsTensor. -/
 def cfgOf (code : Nat) (pol : Policy) : Gen.ExactAlgebra.Cfg :=
   { fast := code % 2 == 1, skip := (code / 2) % 2 == 1, detach := (code / 4) % 2 == 1, eager := (code / 8) % 2 == 1,
     ttDim2 := (code / 16) % 2 == 1, ttIsTensor := (code / 32) % 2 == 1, cache4d := false, policy := pol }
 
-def stepNan (n s : Nat) (ts : List String) : Option String := do
-  let (J, ts) ← takeD (n + s) (n + s) ts
-  let (mj, ts) ← takeD (n + s) 1 ts
-  let (S, ts) ← takeD n n ts
-  let (y, ts) ← takeD n 1 ts
-  let (o, ts) ← takeD n 1 ts
-  let (c, ts) ← takeD 1 1 ts
-  let (c', ts) ← takeD 1 1 ts
-  let code := (ts.head?.bind String.toNat?).getD 24
-  let obs : Fin n → Bool := fun i => o.toMatrix i 0 != 0
-  let A := marginal (trainBlock J) S
-  let gen (pol : Policy) : List String :=
-    match Gen.ExactAlgebra.exact_prediction (cfgOf code pol) J mj A (splitMean mj).1 y (DMat.zero : DMat n 1 Rat) obs
-            (c.toMatrix 0 0) with
-    | some (m, C) => [showD m, showD C]
-    | none => ["nogen", "nogen"]
-  match nanPosterior J mj S y obs (c.toMatrix 0 0) (c'.toMatrix 0 0) with
-  | some P =>
-    some ("ok " ++ " | ".intercalate ([toString P.cnt, showD P.meanMask, showD P.covarMask, showD P.meanFill,
-      showD P.covarFill, showD P.covarIgnoring, showRat P.quad,
-      detStr (maskSub A obs)] ++ gen Policy.mask ++ gen Policy.fill))
-  | none => some "singular"
+def gen : NanDriver.GenFn := fun n _ code pol J mj A mx y obs c =>
+  Gen.ExactAlgebra.exact_prediction (cfgOf code pol) J mj A mx y (DMat.zero : DMat n 1 Rat) obs c
 
-def step (line : String) : String :=
-  let r : Option String :=
-    match tokens line with
-    | "nan" :: n :: s :: ts => do stepNan (← n.toNat?) (← s.toNat?) ts
-    | _ => none
-  r.getD "bad-request"
-
-def main : IO Unit := Proto.main step
+def main : IO Unit := Proto.main (NanDriver.step gen)
